@@ -3,6 +3,7 @@ from __future__ import annotations
 
 import itertools
 import math
+import time
 from fractions import Fraction
 
 from . import c02_history as H
@@ -12,8 +13,8 @@ from . import c02_util as U
 from .common import add_failure, bump, new_outcome, unrat
 
 PROP = "C02"
-PROPS_FILES = ["CogentModel/Props/C02.lean", "CogentModel/Props/C02Sites.lean", "CogentModel/Props/C02Fixed.lean"]
-LEAN_TARGETS = ["CogentModel.Props.C02", "CogentModel.Props.C02Sites", "CogentModel.Props.C02Fixed"]
+PROPS_FILES = ["CogentModel/Props/C02.lean", "CogentModel/Props/C02Sites.lean", "CogentModel/Props/C02Fixed.lean", "CogentModel/Props/C02Gen.lean"]
+LEAN_TARGETS = ["CogentModel.Props.C02", "CogentModel.Props.C02Sites", "CogentModel.Props.C02Fixed", "CogentModel.Props.C02Gen"]
 DRIVER = "drv_c02"
 TRUSTED = [
     "hand-written model lean/CogentModel/Model/Prune.lean of the pruning recursion, bin mixture and _indexed column "
@@ -27,6 +28,8 @@ TRUSTED = [
     "SiteClassTransitionMatrix and the loop of log_dot_reduce (mirrored as written since fix 6668db777: dot(state_probs, switch_probs); "
     "STRICT about the orientation); tied on the real per-bin likelihood "
     "arrays / root index / PatchSiteDistribution attributes of sites_independent=False likelihood functions",
+    "translator/c02_indexed2lean.py (AST of likelihood_tree._indexed -> Gen/C02Indexed.lean, proved equal to the hand model Prune.indexed: "
+    "gen_indexed_eq_model) with its prelude Model/PyAccum.lean (dict as association list)",
     "hand-written model lean/CogentModel/Model/PruneFixed.lean of PartialLikelihoodProductDefnFixedMotif (mask on one internal node "
     "addressed by its path); tied to every successful reconstruct_ancestral_seqs of the history stream (driver `lfpin`)",
     "the harness's own reading of the site-class HMM definition at the level of the bins (harness/c02_sites.py hmm_definition)",
@@ -40,6 +43,24 @@ ASSUMPTIONS = [
 ]
 
 REL_LH = 1e-9
+
+
+def generate(ctx):
+    """translator step: `_indexed` of the CURRENT evolve/likelihood_tree.py -> Gen/C02Indexed.lean (proved equal to the hand model
+    `Prune.indexed` for all key lists in Props/C02Gen.lean, so a semantic edit of the function breaks a proof obligation and
+    syntax outside the supported fragment is a reported translation problem)"""
+    import sys
+
+    from .common import LEAN, SRC, VERIF
+
+    sys.path.insert(0, str(VERIF))
+    from translator import c02_indexed2lean as tr
+
+    lean, info, problems = tr.translate(SRC / "evolve" / "likelihood_tree.py")
+    ctx.notes.append(f"c02_indexed2lean: {info}")
+    if lean is not None and tr.write_if_changed(LEAN / "CogentModel" / "Gen" / "C02Indexed.lean", lean):
+        ctx.notes.append("Gen/C02Indexed.lean was rewritten (source differs from the last generated text)")
+    return [f"c02_indexed2lean: {p}" for p in problems]
 REL_LNL = 1e-8
 MAX_LABELINGS = 20000
 
@@ -1070,6 +1091,9 @@ def spec_check(ctx, budget):
     # constructor option grid (mprob_model x word alphabets with excluded words); histories on one function object
     O.spec_stream(ctx, out, ctx.subrng(f"options{budget}"), budget)
     H.spec_stream(ctx, out, ctx.subrng(f"history{budget}"), budget)
+    _t0 = time.time()
+    H.ancestral_stream(ctx, out, ctx.subrng(f"ancestral{budget}"), budget)
+    bump(out, "ancestral_stream_seconds", int(time.time() - _t0))
     if budget in (1, 10):
         # size scaling (not repeated in the wider search after a failure: the stream does not depend on the budget)
         lrng = ctx.subrng("large")
